@@ -95,6 +95,9 @@ class Ctx:
             raise PathAbort(self.abort_reason)
         i = len(self.decisions)
         self.stats.decisions += 1
+        cb = self.state.get("on_branch")
+        if cb is not None and payload is None:
+            cb(cond)                      # harness hook (e.g. "a data-dependent branch must not exist here")
         h = _site()
         if i < len(self.prefix):
             taken = self.prefix[i][0]
@@ -758,6 +761,8 @@ def s_min(*a, **k):
     import builtins
     if len(a) == 1:
         a = tuple(a[0])
+        if len(a) == 1 and not k:
+            return unwrap0(a[0])
     if any(isinstance(unwrap0(x), (Sym, SLog)) for x in a):
         a = tuple(unwrap0(x) for x in a)
     if not any(isinstance(x, (Sym, SLog)) for x in a):
@@ -772,6 +777,8 @@ def s_max(*a, **k):
     import builtins
     if len(a) == 1:
         a = tuple(a[0])
+        if len(a) == 1 and not k:
+            return unwrap0(a[0])
     if any(isinstance(unwrap0(x), (Sym, SLog)) for x in a):
         a = tuple(unwrap0(x) for x in a)
     if not any(isinstance(x, (Sym, SLog)) for x in a):
